@@ -163,6 +163,41 @@ func (e *Env) eval(x Expr) (SVal, types.Type, error) {
 	case *ESel:
 		return e.evalSel(n)
 	case *EIndex:
+		// elements of a recorded call argument are read in the state just before that call
+		if c, ok := n.X.(*ECall); ok {
+			if id, ok := c.Fun.(*EIdent); ok && id.Name == "callarg" && len(c.Args) >= 2 {
+				if s, ok := c.Args[0].(*EStr); ok {
+					if k, ok := c.Args[1].(*EInt); ok {
+						var kk int
+						fmt.Sscanf(k.V, "%d", &kk)
+						if rec, have := e.st.callLog[fmt.Sprintf("%s#%d", s.V, kk)]; have && rec.pre != nil {
+							ne := *e
+							if ne.live == nil {
+								ne.live = e.st
+							}
+							ne.st = rec.pre
+							ne.st.callLog = e.st.callLog
+							inner := *n
+							sv, stt, err := ne.eval(inner.X)
+							if err != nil {
+								return nil, nil, err
+							}
+							i, _, err := e.evalTerm(n.I)
+							if err != nil {
+								return nil, nil, err
+							}
+							sl, ok := sv.(SliceV)
+							if !ok {
+								return nil, nil, fmt.Errorf("index on non-slice call argument")
+							}
+							et := stt.Underlying().(*types.Slice).Elem()
+							v, err := rec.pre.loadElem(sl.Arr, Add(sl.Off, i), et)
+							return v, et, err
+						}
+					}
+				}
+			}
+		}
 		s, st, err := e.eval(n.X)
 		if err != nil {
 			return nil, nil, err
@@ -718,6 +753,13 @@ func (e *Env) evalCall(n *ECall) (SVal, types.Type, error) {
 			return nil, nil, err
 		}
 		return Scalar{App(SInt, id.Name, refOf(v))}, tInt, nil
+	case "wrap64", "wrap32", "wrap16", "wrap8":
+		a, _, err := e.evalTerm(n.Args[0])
+		if err != nil {
+			return nil, nil, err
+		}
+		bits := map[string]int{"wrap64": 64, "wrap32": 32, "wrap16": 16, "wrap8": 8}[id.Name]
+		return Scalar{App(SInt, "mod", a, pow2(bits))}, tInt, nil
 	case "heapobj":
 		v, _, err := e.eval(n.Args[0])
 		if err != nil {
@@ -753,9 +795,65 @@ func (e *Env) evalCall(n *ECall) (SVal, types.Type, error) {
 			return Scalar{i.Typ}, tInt, nil
 		}
 		return nil, nil, fmt.Errorf("dyntype of non-interface")
+	case "callseq":
+		s, ok := n.Args[0].(*EStr)
+		k, ok2 := n.Args[1].(*EInt)
+		if !ok || !ok2 {
+			return nil, nil, fmt.Errorf("callseq(\"callee\", k)")
+		}
+		var kk int
+		fmt.Sscanf(k.V, "%d", &kk)
+		rec, have := e.st.callLog[fmt.Sprintf("%s#%d", s.V, kk)]
+		if !have {
+			return nil, nil, fmt.Errorf("callseq: call %s#%d did not happen on this path (guard with ncalls)", s.V, kk)
+		}
+		return Scalar{IntLit(int64(rec.seq))}, tInt, nil
+	case "funcval":
+		s, ok := n.Args[0].(*EStr)
+		if !ok {
+			return nil, nil, fmt.Errorf("funcval needs a string literal")
+		}
+		name := e.fe.P.canonFuncName(s.V)
+		fn := e.fe.P.Funcs[name]
+		if fn == nil {
+			return nil, nil, fmt.Errorf("funcval: unknown function %s", name)
+		}
+		return Scalar{e.fe.funcRef(fn)}, tInt, nil
+	case "constof":
+		// constof("pkgpath", "name"): a package-level constant of any loaded package
+		p1, ok := n.Args[0].(*EStr)
+		p2, ok2 := n.Args[1].(*EStr)
+		if !ok || !ok2 {
+			return nil, nil, fmt.Errorf("constof(\"pkgpath\", \"name\")")
+		}
+		tp := e.fe.P.typesPkg(e.fe.P.resolvePkg(p1.V))
+		if tp == nil {
+			return nil, nil, fmt.Errorf("constof: unknown package %s", p1.V)
+		}
+		c, isC := tp.Scope().Lookup(p2.V).(*types.Const)
+		if !isC {
+			return nil, nil, fmt.Errorf("constof: %s.%s is not a constant", p1.V, p2.V)
+		}
+		return constVal(e.fe, c.Val(), c.Type())
+	case "mapget":
+		// mapget(m, key): the abstract content of a map (stable until the map may be written)
+		m, mt, err := e.eval(n.Args[0])
+		if err != nil {
+			return nil, nil, err
+		}
+		k, _, err := e.eval(n.Args[1])
+		if err != nil {
+			return nil, nil, err
+		}
+		mp, isMap := mt.Underlying().(*types.Map)
+		if !isMap {
+			return nil, nil, fmt.Errorf("mapget on non-map")
+		}
+		v, err := e.st.mapGet(refOf(m), flatten(k), mp)
+		return v, mp.Elem(), err
 	case "ncalls":
 		if s, ok := n.Args[0].(*EStr); ok {
-			return Scalar{IntLit(int64(e.st.callCnt[s.V]))}, tInt, nil
+			return Scalar{e.st.numCalls(s.V)}, tInt, nil
 		}
 		return nil, nil, fmt.Errorf("ncalls needs a string literal")
 	case "callarg", "callres":
@@ -785,6 +883,16 @@ func (e *Env) evalCall(n *ECall) (SVal, types.Type, error) {
 			return nil, nil, fmt.Errorf("callarg: %s has %d arguments", key, len(rec.args))
 		}
 		return rec.args[ii], rec.argT[ii], nil
+	case "unboxint":
+		v, _, err := e.eval(n.Args[0])
+		if err != nil {
+			return nil, nil, err
+		}
+		i, ok := v.(IfaceV)
+		if !ok {
+			return nil, nil, fmt.Errorf("unboxint of non-interface")
+		}
+		return Scalar{i.Ref}, tInt, nil
 	case "unboxstr":
 		v, _, err := e.eval(n.Args[0])
 		if err != nil {
